@@ -288,7 +288,18 @@ func c08Stages(c *wk.Case, srcN int64, failAt int64, k int64, expensive bool) *r
 			}
 			return t
 		}
-		switch r.IntN(6) {
+		switch r.IntN(8) {
+		case 6:
+			// concatenation with an operand that is already in memory (literal, evaluated list): the lazy side stays lazy
+			lit := []*ref.Node{ref.ListN(ref.Int(-1), ref.Int(-2)), ref.ListN(ref.Int(-7)), ref.Method(ref.ListN(ref.Int(-1), ref.Int(-2), ref.Int(-3)), "eval"), ref.ListN()}[r.IntN(4)]
+			if r.IntN(3) == 0 {
+				cur = ref.Bin("+", cur, lit)
+			} else {
+				cur = ref.Bin("+", lit, cur)
+			}
+		case 7:
+			// concatenation of two lazy lists; the second one is only touched when the first is exhausted
+			cur = ref.Bin("+", cur, ref.Method(ref.Static("numbers", ref.Int(1000)), "map", ref.Clo([]string{a}, tickN(60+s, id(a)))))
 		case 0, 1:
 			cur = ref.Method(cur, "map", ref.Clo([]string{a}, e(id(a))))
 		case 2:
